@@ -1,4 +1,5 @@
 import SlimModel.Spec
+import SlimModel.ListFast
 /-
   SlimModel.Build — L1: the trie as the breadth-first array of node records that
   `newSlim` (trie/slimtrie_create.go) produces, before it is packed into bitmaps.
@@ -50,6 +51,31 @@ def labelAt (k : List Nat) (ws : Nat) (big : Bool) : Nat :=
   match k[ws]? with
   | none => 0
   | some a => if big then 1 + (a * 16 + k.getD (ws + 1) 0) else 1 + a
+
+/-- compiled form of `labelAt` (`@[csimp]` below): one walk to position `ws` instead of two -/
+def labelAtFast (k : List Nat) (ws : Nat) (big : Bool) : Nat :=
+  match k.drop ws with
+  | [] => 0
+  | a :: rest => if big then 1 + (a * 16 + rest.headD 0) else 1 + a
+
+@[csimp] theorem labelAt_eq_fast : @labelAt = @labelAtFast := by
+  funext k ws big
+  unfold labelAt labelAtFast
+  rcases Nat.lt_or_ge ws k.length with h | h
+  · rw [List.drop_eq_getElem_cons h, List.getElem?_eq_getElem h]
+    simp only
+    have : k.getD (ws + 1) 0 = (k.drop (ws + 1)).headD 0 := by
+      rw [List.getD_eq_getElem?_getD]
+      cases hd : k.drop (ws + 1) with
+      | nil =>
+        have : k.length ≤ ws + 1 := List.drop_eq_nil_iff.mp hd
+        rw [List.getElem?_eq_none this]; rfl
+      | cons b rest =>
+        have h1 : (k.drop (ws + 1))[0]? = some b := by rw [hd]; rfl
+        rw [List.getElem?_drop] at h1
+        rw [h1]; rfl
+    rw [this]
+  · rw [List.drop_of_length_le h, List.getElem?_eq_none h]
 
 /-- `bmtree.PathLen` of a label, in half-bytes -/
 def labelLen (label : Nat) (big : Bool) : Nat :=
@@ -183,3 +209,36 @@ where
     | .ok st =>
       .ok { opt := opt, nodes := st.nodes, bigCnt := st.bigCnt, leafKeyIdx := st.leafKeyIdx
             elts := vals.map (fun vs => st.leafKeyIdx.toList.map (fun i => vs.getD i [])) }
+
+/-- compiled form of `build` (`@[csimp]` below): selecting the values of the leaves reads
+    `vs.getD i` for every leaf (quadratic in the number of keys); an array copy is indexed instead -/
+def buildFast (keys : List Bytes) (vals : Option (List Bytes)) (opt : Opt) : Except Err Trie1 :=
+  let n := keys.length
+  if n = 0 then .ok (Trie1.empty opt) else
+  if !strictAsc keys then .error .outOfOrder else
+  match vals with
+  | some vs => if vs.length ≠ n then .error (.panic "len(keys) must equal len(values)") else go n
+  | none => go n
+where
+  go (n : Nat) : Except Err Trie1 :=
+    let kns := keys.map nibs
+    let c : BCtx :=
+      { kn := kns.toArray, kb := keys.toArray, keep := (keepMask n vals opt.dedup).toArray
+        lcps := (mkLcps kns).toArray, opt := opt }
+    match buildLoop c (2 * n) 0 { queue := #[{ s := 0, e := n, fb := 0 }] } with
+    | .error e => .error e
+    | .ok st =>
+      .ok { opt := opt, nodes := st.nodes, bigCnt := st.bigCnt, leafKeyIdx := st.leafKeyIdx
+            elts := vals.map (fun vs =>
+              let vsA := vs.toArray
+              st.leafKeyIdx.toList.map (fun i => vsA.getD i [])) }
+
+theorem build_go_eq_fast (keys : List Bytes) (vals : Option (List Bytes)) (opt : Opt) (n : Nat) :
+    build.go keys vals opt n = buildFast.go keys vals opt n := by
+  unfold build.go buildFast.go
+  simp only [List.toArray_getD_eq]
+
+@[csimp] theorem build_eq_fast : @build = @buildFast := by
+  funext keys vals opt
+  unfold build buildFast
+  simp only [build_go_eq_fast]
